@@ -21,6 +21,7 @@ package items
 //@ ensures [C09,C01,C02,C06] old(has(IC.itemMap, *It) && IC.itemMap[*It]) ==> n == 0 && IC.Items == old(IC.Items) && IC.itemMap == old(IC.itemMap)
 //@ ensures [C09,C01,C02,C06] !old(has(IC.itemMap, *It) && IC.itemMap[*It]) ==> n == 1 && len(IC.Items) == old(len(IC.Items)) + 1 && IC.Items[old(len(IC.Items))] == It &&
 //@     (forall i int :: 0 <= i && i < old(len(IC.Items)) ==> IC.Items[i] == old(IC.Items[i]))
+//@ ensures [C09,C01,C02,C06] old(repIC(IC)) ==> inIC(IC, *It) && (forall it Item :: {inIC(IC, it)} old(inIC(IC, it)) ==> inIC(IC, it))
 //@ modifies IC.Items, IC.itemMap
 
 //@ func (*ItemCloure).InsertGoTO
